@@ -278,7 +278,7 @@ def compile_q(q, mk_time):
         return OPS[q[1]](TimeQuery(), mk_time(q[2]))
     if k == "time_test":
         bound = mk_time(q[2])
-        return TimeQuery().test(lambda t, b: t >= b, bound)
+        return TimeQuery().test(_time_ge, bound)
     if k == "time_map":
         return OPS[q[2]](TimeQuery().map(FUNCS[q[1]]), mk_time(q[3]))
     if k == "meas":
@@ -314,6 +314,12 @@ def compile_q(q, mk_time):
     if k == "field_map":
         return OPS[q[3]](FieldQuery()[q[1]].map(FUNCS[q[2]]), q[4])
     raise ValueError(q)
+
+
+def _time_ge(t, b):
+    """Test function of the ("time_test", "ge", x) leaf: one function object for every query built from it
+    (a fresh lambda per query would hash by identity and make set layouts differ between re-executions)."""
+    return t >= b
 
 
 def q_repr(q):
